@@ -52,24 +52,35 @@ def prepare():
 
 
 def confirm(src):
+    """(git stash is shared by all worktrees of a repository, so concurrent slots must not use it: the change is
+    undone and redone with `git apply -R` / `git apply` of the diff taken after the first application)"""
     res = {}
-    sh("git reset -q --hard && git stash clear; rm -f tests/seed_demo.rs", cwd=WT)
+    sh("git reset -q --hard; rm -f tests/seed_demo.rs", cwd=WT)
     rc, out = sh("git apply %s/patch.diff" % src, cwd=WT)
     if rc != 0:
         rc, out = sh("git apply -3 %s/patch.diff" % src, cwd=WT)
         if rc != 0:
             sh("git reset -q --hard", cwd=WT)
             return {"applies": False, "log": out[-500:]}
+        sh("git reset -q", cwd=WT)          # -3 stages the result: keep it in the working tree only
     res["applies"] = True
+    cur = "/tmp/seed_current%s.diff" % SLOT
+    rc, diff = sh("git diff", cwd=WT)
+    open(cur, "w").write(diff)
     rc, out = sh("cargo test --workspace --no-fail-fast --offline 2>&1 | grep -E '^test result|^error' ", cwd=WT)
     res["suite_passes_with_change"] = ("FAILED" not in out and "error" not in out and out.count("test result: ok") >= 8)
     shutil.copy(os.path.join(src, "demo.rs"), os.path.join(WT, "tests", "seed_demo.rs"))
     rc, out = sh("cargo test --offline --test seed_demo 2>&1 | tail -5", cwd=WT)
     res["demo_fails_with_change"] = (rc != 0 or "FAILED" in out)
-    sh("git stash -q", cwd=WT)
+    rc, out = sh("git apply -R %s" % cur, cwd=WT)
+    assert rc == 0, out
     rc, out = sh("cargo test --offline --test seed_demo 2>&1 | tail -5", cwd=WT)
     res["demo_passes_without_change"] = ("test result: ok" in out and "FAILED" not in out)
-    sh("rm -f tests/seed_demo.rs; git stash pop -q", cwd=WT)
+    sh("rm -f tests/seed_demo.rs", cwd=WT)
+    rc, out = sh("git apply %s" % cur, cwd=WT)
+    assert rc == 0, out
+    rc, diff2 = sh("git diff", cwd=WT)
+    assert diff2 == diff and diff.strip(), "the change is not in place"
     return res
 
 
@@ -82,7 +93,10 @@ def run(src, name, props):
         checks = {}
         for p in props:
             t = time.time()
+            rc, d0 = sh("git diff --stat", cwd=WT)
+            assert d0.strip(), "the change is not in place"
             rc, o = sh("bin/check %s --tier quick" % p, cwd=SNAP)
+            open("/tmp/seedcheck_%s_%s.log" % (name, p), "w").write(o)
             viol = [ln for ln in o.splitlines() if ln.startswith("VIOLATION")]
             why = [ln.strip()[:300] for ln in o.splitlines() if "no action of the specification explains" in ln][:3]
             checks[p] = {"exit": rc, "violations": len(viol), "first": why, "wall_s": round(time.time() - t)}
